@@ -2892,6 +2892,21 @@ class RedunBackendDb(RedunBackend):
         tag_rows = list({tag_row.tag_hash: tag_row for tag_row in tag_rows}.values())
 
         if new:
+            # A pair that is already current on a version that this call does not
+            # supersede needs no further version.
+            current_pairs = {
+                (key, json_dumps(value))
+                for tag_hash, key, value in self.session.query(
+                    Tag.tag_hash, Tag.key, Tag.value
+                ).filter(Tag.is_current.is_(True), Tag.entity_id == entity_id)
+                if tag_hash not in parents
+            }
+            tag_rows = [
+                tag_row
+                for tag_row in tag_rows
+                if (tag_row.key, json_dumps(tag_row.value)) not in current_pairs
+            ]
+
             # Here, we force the tags to be current by walking down the
             # tag graph until we reach a leaf.
             # First, we detect whether any tags have been superseded.
